@@ -147,7 +147,20 @@ func (c *vIdealCipher) Decrypt(ciphertext []byte) ([]byte, error) {
 }
 
 func (c *vIdealCipher) EncryptWithNonce(dst, nonce, plaintext []byte) error {
-	return fmt.Errorf("not used by the harnesses")
+	need := len(plaintext) + 16
+	if len(nonce) != 24 {
+		return fmt.Errorf("want nonce size 24")
+	}
+	if cap(dst)-len(dst) < need {
+		return fmt.Errorf("destination capacity is too small")
+	}
+	out := dst[len(dst) : len(dst)+need]
+	ct := vNondetBytes("ct", vMaxPT+16)[:need]
+	copy(out, ct)
+	var n [24]byte
+	copy(n[:], nonce)
+	c.record(&n, 0, plaintext, ct)
+	return nil
 }
 func (c *vIdealCipher) DecryptWithNonce(ciphertext, nonce []byte) ([]byte, error) {
 	if len(nonce) != 24 {
